@@ -149,6 +149,13 @@ func (ctx *Context) applyAtRecursively(pos int) int {
 		}
 	}
 
+	if len(ctx.stack) > 0 {
+		// The action budget is exhausted: abandon the remaining nested
+		// actions, so that they cannot leak into later matches.
+		next = ctx.stack[0].EndPos
+		ctx.stack = ctx.stack[:0]
+	}
+
 	return next
 }
 
